@@ -45,9 +45,13 @@ ATOMS_ERR_TAG = ["Redx", "Redx/Blue", "Red//Blue", "Item/Object/Blue", "Sensory-
                  "(Def-expand/Xy, (Red))", "Onset", "(Onset, Red)", "Duration/3 s", "(Duration/3 s)",
                  "(Definition/Abc, (Red))", "()", "( )", "Red/ Blue", "Item/Red", "Weight/3 kg{", "Red/Blue/Green",
                  "Röd", "Event/Sensory-event/Zork", "Delay/x", "(Offset, Red)", "Blue/Apple/", "/Red",
-                 "Weight/#", "(Red, ())"]
+                 "Weight/#", "(Red, ())",
+                 # groups whose text AS WRITTEN differs from their normalised form (inner blanks), empty / repeated / nested
+                 "(  )", "( ), ( )", "( ( ) )", "((Red), (  ))", "( Red , ( ) )", "( Redx , Blue )", "( ( Red ) , (  ) )"]
 ATOMS_ERR_PLAIN = ["Red,,Blue", "(Red", "Red)", "Red ~ Blue", "[Red]", "{col}", "Red, ,Blue", ",Red", "Red,",
-                   "(Red, Blue), (Blue, Red)", "Red, Red", "(Red, (Blue)), ((Blue), Red)"]
+                   "(Red, Blue), (Blue, Red)", "Red, Red", "(Red, (Blue)), ((Blue), Red)",
+                   "( , )", "( Red , Blue ), ( Red , Blue )", "( Red , Blue ), (Blue,Red)", "(( Red ), ( Blue )), ((Blue), (Red))",
+                   "( Red , ( Blue , Green ) ), ((Green, Blue), Red)"]
 ATOMS = ATOMS_VALID + ATOMS_WARN + ATOMS_ERR_TAG + ATOMS_ERR_PLAIN
 
 CONTEXTS = ["%s", "  %s ", "Green, %s", "%s, Green", "(Green, %s)", "((%s), Green)", "Blue/Apple, %s",
@@ -210,6 +214,14 @@ def check_issue(w, i, inp, entry, text=None, d10_path=False):
             else:
                 w.check((ci, ce) in cands, "C12.offsets.fragment_is_quoted_text", inp, brief(i),
                         {"whole tag": named, "spans": cands})
+                # an issue that names a whole tag or a GROUP: the text the message quotes is the text the offsets select,
+                # as written (a group keeps its inner blanks: '( )' is not '()'), not glued to further tag characters
+                _count["whole"] += 1
+                if frag.startswith("("):
+                    _count["whole_group"] += 1
+                quoted = re.search(r"(?<![\w/])" + re.escape(frag) + r"(?![\w/])", base_message(msg)) is not None
+                w.check(quoted, "C12.offsets.fragment_is_quoted_text", inp, brief(i),
+                        "the message quotes source_text[char_index:char_index_end] = %r" % frag)
         w.check(n >= 1 and all((int(a), int(b)) == (ci, ce) for a, b in SUFFIX_RE.findall(msg)),
                 "C12.suffix.agrees_with_offsets", inp, brief(i), "suffix names the same offsets")
     else:
@@ -317,10 +329,47 @@ def check_sort(w, perm, inp):
     w.check(stable, "C12.sort.stable", inp, "issues with identical context changed relative order", "input order kept")
 
 
+L_ORDER = "C12.sort.ordered_by_file_column_key_row"
+# narrow label of a finding on the unchanged tree: a sidecar with structure / column-reference faults in several columns
+# is answered with those issues in the order met, not in the documented order (everything else stays under L_ORDER)
+L_ORDER_STRUCT = "C12.sort.sidecar_structure_issues_returned_unsorted"
+# codes of the sidecar structure / column-reference screening (documented names in hed/errors/error_types.py)
+STRUCT_CODES = {"SIDECAR_INVALID", "SIDECAR_BRACES_INVALID", "blankValueString", "wrongHedDataType", "sidecarUnknownColumn"}
+
+
+def check_returned_order(w, issues, inp, entry):
+    """the list an entry point RETURNS is in the documented order: file name, then sidecar column, then sidecar key, then
+    row (an absent value before any value).  A dataset validates file after file: judged per file name."""
+    if any(i.get("ec_title") for i in issues):
+        return
+    if entry == "dataset":
+        groups = {}
+        for i in issues:
+            groups.setdefault(i.get("ec_filename", ""), []).append(i)
+        groups = list(groups.values())
+    else:
+        groups = [issues]
+    for g in groups:
+        keys = [_pk(i) for i in g]
+        _count["returned_lists"] += 1
+        if len(set(keys)) > 1:
+            _count["returned_multi_key"] += 1
+        bad = [k for k in range(len(keys) - 1) if keys[k] > keys[k + 1]]
+        if not bad:
+            continue
+        label = L_ORDER
+        if entry in ("sidecar", "dataset") and all(i.get("code") in STRUCT_CODES for i in g):
+            label = L_ORDER_STRUCT
+        w.fail(label, dict(inp, check="order of the returned list"),
+               [[i.get("code")] + list(k) for i, k in zip(g, keys)][:10],
+               "returned list non-decreasing in (file, sidecar column, sidecar key, row); first inversion at position %d" % bad[0])
+
+
 # ------------------------------------------------------------------------------------------------------------------
 # entry points
 # ------------------------------------------------------------------------------------------------------------------
-_count = {"issues": 0, "with_offsets": 0, "sub_tag": 0, "sorted_lists": 0, "quoted": 0, "quoted_no_offsets": 0}
+_count = {"issues": 0, "with_offsets": 0, "sub_tag": 0, "sorted_lists": 0, "quoted": 0, "quoted_no_offsets": 0, "whole": 0,
+          "whole_group": 0, "returned_lists": 0, "returned_multi_key": 0}
 _pool_for_sort = []
 _raised = []   # inputs on which an entry point raised: C12 says nothing about them (C07/C08 do); reported, not judged
 
@@ -498,6 +547,8 @@ def run_sidecar(w, sc, count=True, version="8.3.0"):
                 t = hs.get_original_hed_string()
                 w.check(t in texts or "{" in "".join(texts), "C12.offsets.inside_validated_text", dict(inp, warnings=warn),
                         t, "one of the sidecar's HED strings")
+    for warn in (True, False):
+        check_returned_order(w, res[warn], dict(inp, warnings=warn), "sidecar")
     check_lists(w, res[True], res[False], inp)
     _pool_for_sort.extend(res[True])
 
@@ -531,6 +582,8 @@ def run_table(w, rows, sc, onset, count=True, version="8.3.0"):
     for warn in (True, False):
         for i in res[warn]:
             check_issue(w, i, dict(inp, warnings=warn), "table")
+    for warn in (True, False):
+        check_returned_order(w, res[warn], dict(inp, warnings=warn), "table")
     check_lists(w, res[True], res[False], inp)
     _pool_for_sort.extend(res[True])
 
